@@ -7,6 +7,11 @@ statuses, ErrorResult and user defined types, declared flags; every declared err
 Spaces: base (one level per error, responses on the method), place1 (every placement alone), pair (all ordered
 pairs of placements: exhaustive; quick runs its cut pairq - one pair per ordered pair of resolution paths, rotated by
 the seed - through real code), triple (three errors, TLC simulation).
+Status forms: the space form (always run) writes the status of the innermost response in every way the DSL offers -
+Response(name, status) / Response(name, status, func) / Response(name, func(){ Code(status) }) / Response(status, name) /
+Response(name, func(){..}) without a status (the documented default 400) - in the method's, the service's and the API's
+HTTP expression; pairq rotates the forms by the seed, triple draws them at random.  The status the wire and the client
+are compared with is the one the table (= the abstract design) writes, never one read back from goa's expressions.
 Encodings: every call of the spaces enc (a few tables x every outcome; always run) and triple - thorough: of all
 spaces but pair - asks for the response in no / JSON / XML / gob encoding through its Accept header (generated client
 with that header, raw requests for the decode failures).
@@ -83,9 +88,20 @@ def build(vectors):
                 decl, maps = placement(e)
                 inner = innermost(maps)
                 st = {l: (e["status"] if l == inner else DECOY) for l in maps}
+                form = e.get("form", "arg")
+
+                def line(l):
+                    """the Response(...) line of level l: the innermost one is written the way the table says (a status that is
+                    not written at all - form default - is not in the design either), the shadowed ones as Response(name, decoy)"""
+                    r = {"name": name, "status": st[l]}
+                    if l == inner and form != "arg":
+                        r["form"] = form
+                        if form == "default":
+                            del r["status"]
+                    return r
                 name, new_api = e["name"], False
                 if "api" in decl:
-                    sig = core.canon([e["name"], e["type"], e["flags"], st.get("api")])
+                    sig = core.canon([e["name"], e["type"], e["flags"], st.get("api"), form if inner == "api" else "arg"])
                     new_api = sig not in api_names
                     name = api_names.setdefault(sig, "%s_a%d" % (e["name"], len(api_names) + 1))
                 bind["names"][e["name"]] = name
@@ -110,11 +126,11 @@ def build(vectors):
                 if new_api:
                     d["api"]["errors"].append(dict(d_))
                     if "api" in maps:
-                        d["api"]["httpErrors"].append({"name": name, "status": st["api"]})
+                        d["api"]["httpErrors"].append(line("api"))
                 if "method" in maps:
-                    m["http"]["errors"].append({"name": name, "status": st["method"]})
+                    m["http"]["errors"].append(line("method"))
                 if "service" in maps:
-                    svc["httpErrors"].append({"name": name, "status": st["service"]})
+                    svc["httpErrors"].append(line("service"))
             svc["methods"].append(m)
             d["services"].append(svc)
             where[ti] = bind
@@ -418,10 +434,11 @@ def run(ctx):
         lambda: ctx.mc_expect_violation("mc/MC_ErrorMap", consts={"Deviations": '{"server.no_goa_error_header"}', "Spaces": '{"base"}'}, workers=2, label="MC dev header"),
         lambda: ctx.mc_expect_violation("mc/MC_ErrorMap", consts={"Deviations": '{"prepare.found_flag_not_reset"}', "Spaces": '{"pair"}'}, workers=2, label="MC dev found"),
         lambda: ctx.gen("mc/MC_ErrorMap", "gen/Gen_ErrorMap.cfg", label="Gen ErrorMap", workers=8,
-                        consts=dict(seed, EncSpaces=enc_spaces, Spaces='{"base", "place1", "pairq", "enc"}' if quick else '{"base", "place1", "pairq", "pair", "enc"}')).vectors,
+                        consts=dict(seed, EncSpaces=enc_spaces, Spaces='{"base", "place1", "pairq", "enc", "form"}' if quick else '{"base", "place1", "pairq", "pair", "enc", "form"}')).vectors,
         lambda: ctx.gen("mc/MC_ErrorMap", "gen/Gen_ErrorMap.cfg", consts={"Spaces": '{"triple"}', "EncSpaces": enc_spaces}, simulate=ntraces, depth=20, workers=1, label="Sim ErrorMap triples").vectors,
         lambda: hg.Pipeline(ctx, "gen-err"),
         lambda: ctx.mc_expect_violation("mc/MC_ErrorMap", consts={"Deviations": '{"encode.xml_timeout_is_temporary"}', "Spaces": '{"enc"}', "EncSpaces": '{"enc"}'}, workers=1, label="MC dev xml"),
+        lambda: ctx.mc_expect_violation("mc/MC_ErrorMap", consts={"Deviations": '{"dsl.code_in_function_overwritten"}', "Spaces": '{"form"}'}, workers=1, label="MC dev form"),
         lambda: ctx.mc_expect_violation("mc/MC_ErrorMap", consts={"Deviations": '{"client.gob_zero_value_missing"}', "Spaces": '{"enc"}', "EncSpaces": '{"enc"}'}, workers=1, label="MC dev gob"),
     ]
     with cf.ThreadPoolExecutor(max_workers=len(jobs) + 1) as ex:       # independent TLC runs (distinct labels = distinct scratch directories)
@@ -483,7 +500,7 @@ def real_code(ctx, quick, vectors, grown, pl, ntraces):
         scen.setdefault(di, []).append(scenario(v, sid, bind))
         meta[sid] = (v, bind)
     events = pl.run_all(bins, scen)
-    nontrivial, per_space, paths_seen, encs_seen = set(), {}, set(), set()
+    nontrivial, per_space, paths_seen, encs_seen, forms_seen = set(), {}, set(), set(), set()
     for sid, (v, bind) in meta.items():
         ctx.cov["evaluations"] += 1
         t, out = v["table"], v["outcome"]
@@ -504,7 +521,8 @@ def real_code(ctx, quick, vectors, grown, pl, ntraces):
         where_ = ""
         if out["kind"] in ("declared", "wrapped"):
             i = next(i for i, e in enumerate(t) if e["name"] == out["name"])
-            where_ = "/" + "-".join(v["paths"][i])
+            where_ = "/" + "-".join(v["paths"][i]) + ("" if t[i].get("form", "arg") == "arg" else "/written-" + t[i]["form"])
+            forms_seen.add((t[i].get("form", "arg"), v["paths"][i][1]))
             if len(t) > 1:
                 paths_seen.add(core.canon([v["paths"], i]))
         enc_ = "" if out.get("enc", "none") == "none" else "/accept-" + out["enc"]
@@ -545,6 +563,7 @@ def real_code(ctx, quick, vectors, grown, pl, ntraces):
     ctx.cov["designs"] = len(designs)
     ctx.cov["evaluations_per_space"] = per_space
     ctx.cov["declared_error_positions_observed"] = len(paths_seen)
+    ctx.cov["status_form_x_response_source_observed"] = sorted("%s/%s" % x for x in forms_seen)
     ctx.cov["outcome_kind_x_content_type_observed"] = sorted("%s/%s" % x for x in encs_seen)
 
 
